@@ -153,6 +153,11 @@ func gmatch(t *rt.Thread, c *rt.GoCont) (rt.Cont, error) {
 	if err != nil {
 		return nil, err
 	}
+	if strings.HasPrefix(ptn, "^") {
+		// In gmatch a '^' at the start of a pattern does not work as an anchor
+		// (this would prevent the iteration): it stands for itself.
+		ptn = "%" + ptn
+	}
 	pat, ptnErr := pattern.New(string(ptn))
 	if ptnErr != nil {
 		return nil, ptnErr
